@@ -524,7 +524,7 @@ fn family(n: usize) -> Vec<(TT, TT)> {
 
 pub fn run(ctx: &Ctx) -> Report {
     let mut rep = Report::new(
-        "pools of node-sharing diagrams (f, not f, a sub-diagram of f, f and g, g, smooth(f), not f or g) built in one builder for a rule-defined family of function pairs (skipped levels, complemented roots, parity, thresholds), n in {3,4}; every sequence of <= d queries (d = 2 quick, 3 thorough for BDDs) over the BDD query alphabet (13 fixed kinds + condition on every literal + exists on every variable + 3 partial models) x 7 pool members, plus every ordered pair of queries on EVERY function of 3 variables (every 16th of 4 in thorough) under every order, 8 SDD query kinds x 5 members, the decision-DNNF alphabet (6 fixed kinds + condition on every literal) x 4 members, plus every ordered pair of those queries on the top-down diagram of EVERY function of 3 variables under every order; every answer must equal the answer on a freshly built copy in a fresh builder and every node reachable from the pool must have empty scratch after every call; a state is a distinct query sequence",
+        "pools of node-sharing diagrams (f, not f, a sub-diagram of f, f and g, g, smooth(f), not f or g) built in one builder for a rule-defined family of function pairs (skipped levels, complemented roots, parity, thresholds), n in {3,4}; every sequence of <= d queries (d = 2; 3 in thorough for n = 3 under one order) over the BDD query alphabet (13 fixed kinds + condition on every literal + exists on every variable + 3 partial models) x 7 pool members, plus every ordered pair of queries on EVERY function of 3 variables (every 256th of 4 under every 4th order in thorough) under every order, 8 SDD query kinds x 5 members, the decision-DNNF alphabet (6 fixed kinds + condition on every literal) x 4 members, plus every ordered pair of those queries on the top-down diagram of EVERY function of 3 variables under every order; every answer must equal the answer on a freshly built copy in a fresh builder and every node reachable from the pool must have empty scratch after every call; a state is a distinct query sequence",
     );
     let depth = ctx.tier.pick(2, 3);
     let mut items: Vec<(u8, usize, TT, TT, Vec<usize>, VT)> = Vec::new();
@@ -535,7 +535,9 @@ pub fn run(ctx: &Ctx) -> Report {
             let o2 = orders[(i * 7 + 3) % orders.len()].clone();
             items.push((0, n, f, g, o1.clone(), VT::Leaf(0)));
             if ctx.tier == Tier::Thorough {
-                items.push((0, n, f, g, o2.clone(), VT::Leaf(0)));
+                // the second order at depth 2 (kind 5): depth 3 over ~200 (query, member) pairs is
+                // 8 million sequences per pool and is done for one order and n = 3 only
+                items.push((5, n, f, g, o2.clone(), VT::Leaf(0)));
             }
             let vts = all_vtrees(n);
             items.push((1, n, f, g, vec![], vts[(i * 11 + 2) % vts.len()].clone()));
@@ -556,10 +558,13 @@ pub fn run(ctx: &Ctx) -> Report {
         }
     }
     if ctx.tier == Tier::Thorough {
-        for o in permutations(4) {
+        for (i, o) in permutations(4).into_iter().enumerate() {
             for start in 0..4u64 {
                 items.push((4, 4, start * 8 + 3, 64, o.clone(), VT::Leaf(0)));
-                items.push((3, 4, start * 4 + 1, 16, o.clone(), VT::Leaf(0)));
+                // all ordered query pairs on 3-member pools of every 256th function, every 4th order
+                if i % 4 == 1 {
+                    items.push((3, 4, start * 64 + 1, 256, o.clone(), VT::Leaf(0)));
+                }
             }
         }
     }
@@ -567,7 +572,8 @@ pub fn run(ctx: &Ctx) -> Report {
         let mut r = Report::default();
         r.exhaustive = true;
         match kind {
-            0 => explore_bdd(*f, *g, *n, o, depth, 0, &mut r),
+            0 => explore_bdd(*f, *g, *n, o, if *n >= 4 { depth.min(2) } else { depth }, 0, &mut r),
+            5 => explore_bdd(*f, *g, *n, o, 2, 0, &mut r),
             3 => {
                 // every function of n variables, every ordered pair of queries
                 let total = 1u64 << (1u64 << *n);
